@@ -1,5 +1,6 @@
 import ServiceModel.Driver.Wire
 import ServiceModel.Inv.Monitors
+import ServiceModel.Driver.KeysMode
 import ServiceModel.Driver.QueryWire
 open SM SM.Wire
 
@@ -184,4 +185,6 @@ def main (args : List String) : IO UInt32 := do
   match args with
   | ["model"] => modelLoop stdin stdout none; return 0
   | ["monitor"] => monitorLoop stdin stdout; return 0
+  | ["ids"] => SM.KeysMode.idsLoop stdin stdout    -- C18, see ServiceModel/Driver/KeysMode.lean
+  | ["keys"] => SM.KeysMode.keysLoop stdin stdout  -- C18
   | _ => IO.eprintln "usage: driver model|monitor < trace"; return 2
